@@ -121,7 +121,20 @@ func init() {
 			if start == "startpos" {
 				forms = append(forms, "startpos")
 			} else {
-				forms = append(forms, start, "fen "+start, "fen   "+start)
+				// the halfmove clock a GUI would send: anything from 0 up to "no capture or pawn move since the game began"
+				// (2*(n-1), plus one with black to move), and large values from long shuffling phases
+				st2 := start
+				if f := strings.Fields(start); len(f) == 6 {
+					n := 1
+					fmt.Sscanf(f[5], "%d", &n)
+					maxc := 2 * (n - 1)
+					if f[1] == "b" {
+						maxc++
+					}
+					f[4] = fmt.Sprint([]int{0, maxc, maxc, maxc / 2, 50, 99, 100, 149}[r.intn(8)])
+					st2 = strings.Join(f, " ")
+				}
+				forms = append(forms, start, "fen "+st2, "fen   "+start, st2)
 			}
 			for fi, form := range forms {
 				for _, n := range []int{len(gm.moves), r.intn(len(gm.moves) + 1)} {
